@@ -196,6 +196,17 @@ Theorem C01_default_oer_roundtrip_in_stream : forall dr da t v bs rest,
 Proof. exact dfl_oer_roundtrip_in_stream. Qed.
 Print Assumptions C01_default_oer_roundtrip_in_stream.
 
+(* the structure SEQUENCE_decode_oer leaves behind, exactly (what the tie compares pointer by pointer): root DEFAULTs always
+   stored; the DEFAULTs of the additions stored when some addition was encoded (extension bit set), absent otherwise *)
+Theorem C01_default_oer_roundtrip_exact : forall dr da tg root adds rvs avs bs rest,
+  wf_ety_oer (ESeq tg root adds) = true -> wt_ety_oer (ESeq tg root adds) (EVSeq rvs avs) ->
+  dfl_oer dr da (ESeq tg root adds) (EVSeq rvs avs) = Some bs ->
+  dfl_oer_dec dr da (ESeq tg root adds) (bs ++ rest) =
+    Some (EVSeq (fill dr (elide dr rvs))
+                (if existsb is_present (elide da avs) then fill da (elide da avs) else elide da avs), rest).
+Proof. exact dfl_oer_roundtrip_exact. Qed.
+Print Assumptions C01_default_oer_roundtrip_exact.
+
 (* complete encodings: exactly the octets produced are consumed; the result has the DER of the original and re-encodes
    to the same OER octets *)
 Theorem C01_default_oer_roundtrip : forall dr da t v bs,
